@@ -304,6 +304,7 @@ def one(case):
                 return
             except BaseException as e:  # noqa
                 res["exc"] = repr(e)[:300]
+            central = xp.central
             try:
                 signal.alarm(30)
                 xp.__exit__(None, None, None)
@@ -314,6 +315,9 @@ def one(case):
                 abandon(xp)
             finally:
                 signal.alarm(0)
+                from .ws import reap_central
+
+                reap_central(central)   # (the loop thread __exit__ leaves parked: thousands of replays per worker process)
 
         old = signal.signal(signal.SIGALRM, on_alarm)
         signal.alarm(60)
